@@ -52,10 +52,13 @@ TRACKING_SOCKET_EVENTS_TIMEOUT = 1
 
 class Config(dict):
     def __init__(self, defaults=None):
-        if not defaults.get("TRANSPORT_TYPE"):
-            defaults["TRANSPORT_TYPE"] = "TCP"
+        #: TCP is the default of a configuration that does not name a
+        #: transport. One that is given, whatever its value, is validated
+        #: like every other key; the caller's dictionary is left as it is.
+        defaults = dict(defaults or {})
+        defaults.setdefault("TRANSPORT_TYPE", "TCP")
 
-        dict.__init__(self, defaults or {})
+        dict.__init__(self, defaults)
 
 
 class DiameterLogging(object):
